@@ -149,6 +149,14 @@ def check(rep, ctx):
                 if "src" in d and d["src"].startswith(("[", "{")):
                     dp.append("mutable default")
             rep.check(R_F, not dp, construct=f"{c['key']}.{f['name']}", stmt=field_stmt(f), message="; ".join(dp), **fw)
+    # decoded values: nothing mutable may be handed out by a reader
+    from .. import scan
+    R_V = rep.rule("C15-decoded-values", "readers return immutable values: no bytearray/memoryview built in a reader is returned as is", floor=0)
+    for m in scan.mutable_buffer_returns(ctx, ["kio.serial.readers", "kio.serial._parse", "kio.records.readers"]):
+        rep.check(R_V, False, construct=m["function"], stmt=m["stmt"],
+                  message=f"`{m['stmt']}` hands out a mutable buffer ({m['name']}): an entity decoded through this path holds a bytearray -- "
+                          f"hash() raises TypeError and the 'frozen' entity can be changed in place", file=m["file"], line=m["line"])
+    rep.count(R_V, 1, instance="scan")
     # generator template
     from ..gen import class_template_options
     R_G = rep.rule("C15-generator", "the generator's class template carries frozen=True, slots=True", floor=1)
